@@ -58,9 +58,16 @@ impl Check for C12 {
         if r.chance(1, 4) {
             cfg.channels.push(ChanCfg { name: "#pre".into(), topic: Some("t".into()), ..Default::default() });
         }
+        let mut direct_only = false;
         if secret && r.chance(1, 4) {
             // the hidden channel may also be a predefined secret channel that hidden users populate
             cfg.channels.push(ChanCfg { name: "#hid".into(), secret: true, topic: Some("cfg secret".into()), ..Default::default() });
+        } else if secret && r.chance(1, 5) {
+            // ... or a predefined channel that is public in the configuration and made secret at run time by its
+            // configured operator. A world "without it" does not exist then: only the direct clause is judged
+            // (an outsider's replies to queries that do not name the channel never mention it).
+            cfg.channels.push(ChanCfg { name: "#hid".into(), secret: false, topic: Some("public by configuration".into()), operators: vec!["hxa".into()], ..Default::default() });
+            direct_only = true;
         }
         let mut prof = profile_for("C12");
         prof.pre_register = 3;
@@ -107,6 +114,7 @@ impl Check for C12 {
         params.insert("scenario".to_string(), if secret { "secret_channel" } else { "invisible_user" }.to_string());
         params.insert("observer".to_string(), okind_name.to_string());
         params.insert("obs_conn".to_string(), obs.to_string());
+        params.insert("direct_only".to_string(), (direct_only as u8).to_string());
         params.insert("obs_nick".to_string(), onick.to_string());
         params.insert("hidden_conns".to_string(), format!("{},{}", h1, h2));
         params.insert("hidden_chan".to_string(), hidden_chan.to_string());
@@ -275,9 +283,31 @@ impl Check for C12 {
             return out;
         }
         out.count("speak_blocked_ok", a.speak_ok);
+        let direct_only = trace.params.get("direct_only").map_or(false, |s| s == "1");
+        let hidden_chan = trace.params.get("hidden_chan").cloned().unwrap_or_default();
+        if direct_only {
+            out.count("scenario.predefined_public_made_secret", 1);
+        }
         for (i, (qa, qb)) in a.queries.iter().zip(b.queries.iter()).enumerate() {
             let verb = qa.query.split(' ').next().unwrap_or("").to_string();
             out.count(&format!("query.{}", verb), 1);
+            if scen == "secret_channel" && qa.secret_confirmed && !hidden_chan.is_empty() && !qa.query.contains(&hidden_chan) {
+                // direct clause: a query that does not name the secret channel is never answered with its name
+                if let Some(l) = qa.lines.iter().find(|l| l.split(|c: char| c == ' ' || c == ',' || c == '\u{1f}').any(|w| w.trim_start_matches(|c: char| "~&@%+".contains(c)) == hidden_chan)) {
+                    out.violation = Some(Violation {
+                        property: "C12".into(),
+                        class: "secrecy".into(),
+                        sig: format!("{}:{}:named", scen, verb),
+                        step: qa.step,
+                        msg: format!("observer ({}) query #{} {:?} was answered with a line naming the secret channel: {:?}", okind, i, qa.query, l),
+                    });
+                    return out;
+                }
+                out.count("direct_clause_ok", 1);
+            }
+            if direct_only {
+                continue;
+            }
             if scen == "invisible_user" && verb == "LIST" {
                 continue;
             }
@@ -313,6 +343,8 @@ struct QueryObs {
     step: usize,
     hidden_ops: u32,
     lines: Vec<String>,
+    /// the hidden channel was known to be +s when the query was answered (its members saw the MODE, or it is secret by configuration)
+    secret_confirmed: bool,
 }
 
 #[derive(Clone, Debug, Default)]
@@ -339,6 +371,8 @@ async fn run_world(t: Trace, with_hidden: bool) -> WorldRun {
     let mut observing: Option<u32> = None;
     let mut speaking = false;
     let mut step = 0usize;
+    let hidden_chan_name: String = t.params.get("hidden_chan").cloned().unwrap_or_default();
+    let mut secret_confirmed = t.config.channels.iter().any(|c| c.name == hidden_chan_name && c.secret);
     for a in &t.actions {
         match a {
             Action::Mark { m } => {
@@ -377,10 +411,19 @@ async fn run_world(t: Trace, with_hidden: bool) -> WorldRun {
                         wr.helper_panics.push(msg);
                     }
                 }
+                for h in &hidden_conns {
+                    for l in obs.get(*h).map(|o| o.lines.as_slice()).unwrap_or(&[]) {
+                        if let Some(p) = irc::parse(l) {
+                            if p.cmd == "MODE" && p.p(0) == hidden_chan_name && p.params.get(1).map_or(false, |m| m.starts_with('+') && m.contains('s') && !m.contains('-')) {
+                                secret_confirmed = true;
+                            }
+                        }
+                    }
+                }
                 if let Some((q, n)) = pending_query.take() {
                     let mut lines: Vec<String> = obs[obs_conn].lines.iter().map(|l| canon(l)).collect();
                     lines.sort();
-                    wr.queries.push(QueryObs { query: q, step, hidden_ops: n, lines });
+                    wr.queries.push(QueryObs { query: q, step, hidden_ops: n, lines, secret_confirmed });
                 }
                 if speaking {
                     speaking = false;
